@@ -54,6 +54,10 @@ func (s *LocalBackend) Upload(ctx context.Context, key string, data []byte, opts
 	if err != nil {
 		return fmtErrorf("failed to localize key %q as a filesystem path: %w", key, err)
 	}
+	if name == "." {
+		// "." is local, but names the backend directory itself.
+		return fmtErrorf("key %q does not name an object", key)
+	}
 	path := filepath.Join(s.dir, name)
 	if err := durable.MkdirAll(filepath.Dir(path), 0755); err != nil {
 		return fmtErrorf("failed to create directory %q: %w", filepath.Dir(path), err)
@@ -95,6 +99,10 @@ func (s *LocalBackend) Fetch(ctx context.Context, key string) ([]byte, error) {
 	if err != nil {
 		return nil, fmtErrorf("failed to localize key %q as a filesystem path: %w", key, err)
 	}
+	if name == "." {
+		// "." is local, but names the backend directory itself.
+		return nil, fmtErrorf("key %q does not name an object", key)
+	}
 	path := filepath.Join(s.dir, name)
 	s.log.DebugContext(ctx, "local file read", "key", key, "path", path)
 	return os.ReadFile(path)
@@ -105,6 +113,10 @@ func (s *LocalBackend) Discard(ctx context.Context, key string) error {
 	name, err := filepath.Localize(key)
 	if err != nil {
 		return fmtErrorf("failed to localize key %q as a filesystem path: %w", key, err)
+	}
+	if name == "." {
+		// "." is local, but names the backend directory itself.
+		return fmtErrorf("key %q does not name an object", key)
 	}
 	path := filepath.Join(s.dir, name)
 	s.log.DebugContext(ctx, "local file delete", "key", key, "path", path)
